@@ -59,7 +59,7 @@ fn place(loc: usize, service: f64, windows: &[(f64, f64)]) -> PlaceT {
     PlaceT { loc, service, windows: windows.to_vec() }
 }
 
-/// Task templates. Jobs: 0..=9, 12, 14..=18 singles, job 10 = multi (mp, md), job 11 = multi (np, nd), job 13 = multi (qp1, qp2, qd).
+/// Task templates. Jobs: 0..=9, 12, 14..=20 singles, job 10 = multi (mp, md), job 11 = multi (np, nd), job 13 = multi (qp1, qp2, qd).
 pub fn tasks() -> Vec<TaskT> {
     use DemandKind::*;
     let t = |id, demand, places: Vec<PlaceT>, job, value| TaskT { id, demand, places, job, value };
@@ -94,6 +94,10 @@ pub fn tasks() -> Vec<TaskT> {
         // second takes back more than it hands over
         t("x1", Exchange(1, 1), vec![place(1, 0., &[(0., MAXT)])], 17, 0.),
         t("x2", Exchange(2, 1), vec![place(2, 0., &[(0., MAXT)])], 18, 0.),
+        // windows around TD_AT (the moment from which legs take twice as long in the time-dependent lab): a job which is left
+        // just after it although it is reached long before, and a tight window right behind it
+        t("w38", None, vec![place(1, 3., &[(38., 45.)])], 19, 0.),
+        t("w45", None, vec![place(2, 0., &[(45., 50.)])], 20, 0.),
     ]
 }
 
@@ -111,6 +115,19 @@ pub struct VehicleT {
     pub per_time: f64,
     /// duration scale of the vehicle's routing profile
     pub scale: f64,
+    /// the lab's routing data is time dependent (see `travel`)
+    pub timedep: bool,
+}
+
+/// From this moment on every leg takes twice as long (time-dependent labs): three matrices with the timestamps 0, TD_AT - 1
+/// (both the plain durations) and TD_AT (doubled); every time of the lab is integral, so a query never falls between two
+/// timestamps and the provider's interpolation is not involved.
+pub const TD_AT: f64 = 40.;
+
+/// Travel time of a leg which starts at `t`.
+pub fn travel(vehicle: &VehicleT, i: usize, j: usize, t: f64) -> f64 {
+    let factor = if vehicle.timedep && t >= TD_AT { 2. } else { 1. };
+    dur(i, j) * factor * vehicle.scale
 }
 
 pub fn vehicles() -> Vec<VehicleT> {
@@ -126,6 +143,7 @@ pub fn vehicles() -> Vec<VehicleT> {
         per_distance: 1.,
         per_time: 2.,
         scale: 1.,
+        timedep: false,
     };
     vec![
         v("v_closed", true, 0., 1000., 2),
@@ -228,11 +246,30 @@ impl Lab {
     }
 
     pub fn with_tasks(goal: GoalKind, tasks: Vec<TaskT>) -> Lab {
-        let vehicles = vehicles();
+        Lab::with_routing(goal, tasks, false)
+    }
+
+    /// The lab with time-dependent routing data (every vehicle is flagged `timedep`).
+    pub fn timedep(goal: GoalKind) -> Lab {
+        Lab::with_routing(goal, tasks(), true)
+    }
+
+    pub fn with_routing(goal: GoalKind, tasks: Vec<TaskT>, timedep: bool) -> Lab {
+        let vehicles: Vec<VehicleT> = vehicles().into_iter().map(|v| VehicleT { timedep, ..v }).collect();
         let durations: Vec<f64> = (0..LOCS).flat_map(|i| (0..LOCS).map(move |j| dur(i, j))).collect();
         let distances: Vec<f64> = (0..LOCS).flat_map(|i| (0..LOCS).map(move |j| dist(i, j))).collect();
         // NOTE: the matrix provider (not SimpleTransportCost): it honours the duration scale of a profile
-        let transport: Arc<dyn TransportCost> = create_matrix_transport_cost(vec![MatrixData::new(0, None, durations, distances)]).expect("lab matrix");
+        let transport: Arc<dyn TransportCost> = if timedep {
+            let doubled: Vec<f64> = durations.iter().map(|d| d * 2.).collect();
+            create_matrix_transport_cost(vec![
+                MatrixData::new(0, Some(0.), durations.clone(), distances.clone()),
+                MatrixData::new(0, Some(TD_AT - 1.), durations, distances.clone()),
+                MatrixData::new(0, Some(TD_AT), doubled, distances),
+            ])
+            .expect("lab matrices")
+        } else {
+            create_matrix_transport_cost(vec![MatrixData::new(0, None, durations, distances)]).expect("lab matrix")
+        };
 
         let mk_single = |t: &TaskT| -> Single {
             let mut b = SingleBuilder::default().id(t.id);
@@ -458,7 +495,7 @@ pub fn sim(tasks: &[TaskT], vehicle: &VehicleT, seq: &[Visit], departure: f64) -
         let task = &tasks[v.task];
         let p = &task.places[v.place];
         let (ws, we) = p.windows[v.window];
-        let arrival = t + dur(loc, p.loc) * vehicle.scale;
+        let arrival = t + travel(vehicle, loc, p.loc, t);
         r.distance += dist(loc, p.loc);
         r.arrivals.push(arrival);
         if arrival > we {
@@ -480,7 +517,7 @@ pub fn sim(tasks: &[TaskT], vehicle: &VehicleT, seq: &[Visit], departure: f64) -
         }
     }
     if vehicle.closed {
-        let arrival = t + dur(loc, vehicle.end_loc) * vehicle.scale;
+        let arrival = t + travel(vehicle, loc, vehicle.end_loc, t);
         r.distance += dist(loc, vehicle.end_loc);
         r.end_arrival = arrival;
         if arrival > vehicle.end_latest {
